@@ -8,7 +8,7 @@ from typing import Dict, List, Optional, Set, Tuple
 from ..core import (AnalysisError, FuncInfo, Index, Result, call_name, call_recv, const_str, dotted, iter_calls,
                     norm_stmt, src, walk_no_nested)
 from ..templates import Opq, parts_text
-from ..util import params, single_assignments
+from ..util import closure_rule, params, single_assignments, stale_loop_reads
 
 SM_SD = "BPTK_Py/scenariomanager/scenario_manager_sd.py"
 SM_HY = "BPTK_Py/scenariomanager/scenario_manager_hybrid.py"
@@ -111,7 +111,8 @@ def check_c06(idx: Index, tier: str, res: Result) -> None:
                        "manager passes its mutable-default arguments explicitly.")
     res.rules = ["ALIAS: field-sensitive, flow-insensitive sharing x in-place mutators among the scenario operations",
                  "REBIND: whole-table stores to <model>.points/constants outside construction",
-                 "FRESH: per-scenario model objects", "DEFAULTS: mutable default arguments stored and mutated"]
+                 "FRESH: per-scenario model objects", "DEFAULTS: mutable default arguments stored and mutated",
+                 "STALE: no local carried from one scenario's loop iteration into the next"]
     res.not_decided = ["equality of results with a freshly built model (numeric)",
                        "aliasing introduced by a caller passing one dict object for two scenarios",
                        "sharing of the arrayed-element tables (_elements): written only by the modelling API, not by a scenario operation"]
@@ -251,6 +252,21 @@ def check_c06(idx: Index, tier: str, res: Result) -> None:
                           "built this way share one table" % (cname, p, src(mut[p]), sorted(set(writers))[:2]),
                           key="DEFAULTS/%s/%s/%s" % (cname, p, fi.qual))
 
+    # ---- STALE: what one scenario's iteration reads was bound in that iteration ------------------------------------------------
+    nloops = 0
+    for pre in ("BPTK_Py/scenariorunners/", "BPTK_Py/scenariomanager/", "BPTK_Py/bptk.py"):
+        for fi in idx.all_funcs(pre):
+            for lp in [x for x in walk_no_nested(fi.node) if isinstance(x, ast.For)]:
+                nloops += 1
+                hits = stale_loop_reads(fi.node, fi.qual, lp)
+                var, nd, wit = hits[0] if hits else ("", None, [])
+                res.check("STALE", "%s: loop over %s reads only what the iteration bound" % (fi.qual, src(lp.iter)[:40]), not hits,
+                          fi.loc(nd.ast) if nd is not None else fi.loc(lp), fi.qual, nd.text() if nd is not None else norm_stmt(lp)[:60],
+                          "inside the loop over %s the local '%s' is read on a path on which this iteration has not assigned it: it still holds what "
+                          "the previous iteration (another scenario) left there, so that scenario's settings are applied to this one. Path: %s"
+                          % (src(lp.iter)[:40], var, " ; ".join(wit[-5:])), key="STALE/%s/%s" % (fi.qual, var))
+    res.floor("per-scenario / per-manager loops examined for stale locals", nloops, 60)
+
 
 # ---------------------------------------------------------------------------
 # C07
@@ -372,6 +388,9 @@ def check_c07(idx: Index, tier: str, res: Result) -> None:
         res.check("APPLY", "%s applies settings before start()" % qual, ok, fi.loc(), fi.qual, "start()", "settings are applied after the simulation ran",
                   key="APPLY/%s/order" % qual)
 
+    closure_rule(idx, res, "APPLY", [(RUNNER, "SdRunner._run_scenarios"), (RUNNER, "SdRunner.run_scenario_step"),
+                                     (SCEN, "SimulationScenario.configure_settings"), (SERVER, "BptkServer._run_resource")])
+
     # ---- DEFUSE: change_runspecs ------------------------------------------------------------------------------------------
     cr = idx.func(SDSIM, "SdSimulation.change_runspecs")
     written = {}
@@ -458,6 +477,18 @@ def check_c07(idx: Index, tier: str, res: Result) -> None:
         ok = len(st_) == 1 and isinstance(st_[0].value, ast.Call) and (call_name(st_[0].value) or "").endswith("get_all_" + base)
         res.check("MERGE", "factory collects %s across files into manager.%s" % (base, base), ok, fac.loc(), fac.qual, norm_stmt(st_[0])[:100] if st_ else "",
                   "the factory fills manager.%s from %s" % (base, src(st_[0].value)[:60] if st_ else "nothing"), key="MERGE/__readScenario/%s" % base)
+        # the files searched are the complete set: a list that __readScenario itself is still growing (one file per call) holds, when an
+        # earlier file's scenarios are loaded, only the files read so far - base values defined in a later file never reach them
+        if ok and len(st_[0].value.args) >= 2:
+            files = st_[0].value.args[1]
+            grown = [nd for nd in walk_no_nested(fac.node)
+                     if (isinstance(nd, ast.AugAssign) and src(nd.target) == src(files))
+                     or (isinstance(nd, ast.Call) and call_name(nd) in ("append", "extend", "insert") and src(nd.func.value) == src(files))
+                     or (isinstance(nd, ast.Assign) and src(nd.targets[0]) == src(files))]
+            res.check("MERGE", "factory searches the complete file set for %s" % base, not grown, fac.loc(st_[0]), fac.qual, src(st_[0].value)[:100],
+                      "manager.%s is collected from %s, a list __readScenario extends by one file per call (%s): scenarios loaded from an earlier "
+                      "file never see base values defined in a later one" % (base, src(files), norm_stmt(grown[0])[:60] if grown else ""),
+                      key="MERGE/__readScenario/%s/partial-file-list" % base)
 
     # ---- KILL: run specs from a scenario file survive instantiate_model -----------------------------------------------------------
     inst = idx.func(SM_SD, "ScenarioManagerSd.instantiate_model")
